@@ -21,6 +21,15 @@ static bool is_commit(const char* sql)
     return strncasecmp(sql, "COMMIT", 6) == 0 || strncasecmp(sql, "END", 3) == 0;
 }
 
+static bool is_rollback(const char* sql)
+{
+    if (!sql)
+        return false;
+    while (*sql && isspace(static_cast<unsigned char>(*sql)))
+        ++sql;
+    return strncasecmp(sql, "ROLLBACK", 8) == 0 || strncasecmp(sql, "RELEASE", 7) == 0;
+}
+
 extern "C" int verif_sqlite3_step(sqlite3_stmt* stmt)
 {
     auto& s = vfshim::state();
@@ -35,10 +44,19 @@ extern "C" int verif_sqlite3_step(sqlite3_stmt* stmt)
         if (s.record_sql && sql)
             s.write_sql.emplace_back(sql);
     }
+    if (s.in_call && ro && !commit && !is_rollback(sql))
+    {
+        ++s.read_points;
+        if (s.fail_at != 0 && s.fail_reads && s.read_points == s.fail_at)
+        {
+            s.fired = true;
+            return s.fail_code;  // the statement is NOT executed / the next row is not produced
+        }
+    }
     if (!ro || commit)
     {
         ++s.fault_points;
-        if (s.fail_at != 0 && s.fault_points == s.fail_at)
+        if (s.fail_at != 0 && !s.fail_reads && s.fault_points == s.fail_at)
         {
             s.fired = true;
             return s.fail_code;  // the statement is NOT executed
